@@ -90,7 +90,14 @@ pub fn run(args: &[String]) {
                     match NotificationBuilder::new_vec(d, data) { Ok(b) => format!("ok:{}", hex(&b)), Err(_) => "E".into() }
                 }).unwrap_or("PANIC".into())
             }
-            "KB" => guard(|| format!("ok:{}", hex(&KeepaliveBuilder::new_vec().finish()))).unwrap_or("PANIC".into()),
+            "KB" => {
+                // with an argument: the builder is given a target that still holds these octets (a buffer that is reused)
+                let stale = f.get(2).map(|h| unhex(h));
+                guard(move || match stale {
+                    None => format!("ok:{}", hex(&KeepaliveBuilder::new_vec().finish())),
+                    Some(v) => format!("ok:{}", hex(&KeepaliveBuilder::from_target(v).unwrap().finish())),
+                }).unwrap_or("PANIC".into())
+            }
             _ => panic!("bad case line"),
         };
         writeln!(out, "{} {} {}", f[0], f[1], s).unwrap();
